@@ -11,10 +11,11 @@ of `Heap.lean`.
   epoll engine: `if (wait_ms > INT_MAX) wait_ms = INT_MAX; epoll_wait(…, static_cast<int>(wait_ms))`
   select engine: `tv.tv_sec = wait_ms / 1000; tv.tv_usec = wait_ms % 1000` (sic: milliseconds stored as µs)
 
-`WTimer.owner` is a ghost field (which TimerEventImpl armed the record).  The cabinet of the loop is
+`WTimer.owner/base/k` are ghost fields (which TimerEventImpl armed the record, when, firings so far).  The cabinet of the loop is
 rendered by its contract (C08): the live tokens are exactly the tokens of the records in the heap
 (a token is freed at the two points a record leaves the vector), tokens are never reissued.
-Everything here is executable; theorems are in `WideProofs.lean`.
+Everything here is executable; theorems are in `WideProofs.lean`.  TimerEventImpl / TimerPool / callback scripts on top of
+this core, at width: `WideExec.lean` (round 4).
 -/
 import TboxModel.C02.Heap
 namespace Tbox.C02.Wide
@@ -26,6 +27,8 @@ structure WTimer where
   interval : UInt64
   rep      : UInt64            -- `repeat`: 0 = for ever, 1 = last firing, n = n firings left
   owner    : Nat := 0          -- ghost
+  base     : Nat := 0          -- ghost: clock reading at `addTimer`
+  k        : Nat := 0          -- ghost: number of times the record was re-armed (= callbacks so far)
 deriving Repr, DecidableEq
 
 /-- `TimerCmp`: `x->expired > y->expired` — a min-heap on the 64-bit deadline (`<` on UInt64 is `<` on toNat) -/
@@ -43,7 +46,8 @@ def intervalArg (ms : Int64) : UInt64 := ms.toUInt64
 
 /-- `CommonLoop::addTimer(interval, repeat, cb)` at clock reading `now`; returns the token -/
 def addTimer (A : Algs) (l : WLoop) (now interval rep : UInt64) (owner : Nat := 0) : WLoop × Nat :=
-  let t : WTimer := { tok := l.nextTok, expired := now + interval, interval := interval, rep := rep, owner := owner }
+  let t : WTimer := { tok := l.nextTok, expired := now + interval, interval := interval, rep := rep, owner := owner,
+                      base := now.toNat }
   ({ heap := add A l.heap t, nextTok := l.nextTok + 1 }, l.nextTok)
 
 def hasTok (tok : Nat) (t : WTimer) : Bool := t.tok == tok
@@ -61,7 +65,7 @@ def overWaterline (d : Int32) (waterlineNs : Int64) : Bool := decide (d.toInt64 
 
 /-- the update made through the pointer in the else branch: `t->expired += t->interval; if (t->repeat != 0) --t->repeat;` -/
 def rearm (t : WTimer) : WTimer :=
-  { t with expired := t.expired + t.interval, rep := if t.rep != 0 then t.rep - 1 else t.rep }
+  { t with expired := t.expired + t.interval, rep := if t.rep != 0 then t.rep - 1 else t.rep, k := t.k + 1 }
 
 structure Served where
   timer : WTimer        -- the record at the front, as it was when it was found due
@@ -109,62 +113,6 @@ def selectTimeval (w : Int64) : Option (Int64 × Int64) :=
 
 /-- the change of seeded/C02-5 (NOT the repo code): the due test made on the narrowed difference -/
 def dueNarrowed (now expired : UInt64) : Bool := decide (0 ≤ delayMs now expired)
-
-/-! ### TimerEventImpl at width (flat: no callback scripts — those are in `Model.lean`) -/
-
-structure WObj where
-  alive    : Bool := true
-  inited   : Bool := false
-  enabled  : Bool := false
-  oneshot  : Bool := false
-  interval : Int64 := 0
-  token    : Option Nat := none
-deriving Repr
-
-structure WState where
-  loop : WLoop := {}
-  objs : Array WObj := #[]
-  now  : UInt64 := 1000
-
-def WState.obj (s : WState) (j : Nat) : WObj := s.objs.getD j { alive := false }
-def WState.setObj (s : WState) (j : Nat) (o : WObj) : WState := { s with objs := s.objs.setIfInBounds j o }
-
-def wDisable (A : Algs) (s : WState) (j : Nat) : WState × Bool :=
-  let o := s.obj j
-  if !o.alive then (s, false)
-  else if !o.inited then (s, false)
-  else if !o.enabled then (s, true)
-  else
-    let loop := match o.token with
-      | some t => deleteTimer A s.loop t
-      | none => s.loop
-    ({ s with loop := loop }.setObj j { o with enabled := false }, true)
-
-def wInit (A : Algs) (s : WState) (j : Nat) (ms : Int64) (oneshot : Bool) : WState × Bool :=
-  if !(s.obj j).alive then (s, false) else
-  let s1 := (wDisable A s j).1
-  (s1.setObj j { s1.obj j with interval := ms, oneshot := oneshot, inited := true }, true)
-
-def wEnable (A : Algs) (s : WState) (j : Nat) : WState × Bool :=
-  let o := s.obj j
-  if !o.alive then (s, false)
-  else if !o.inited then (s, false)
-  else if o.enabled then (s, true)
-  else
-    let (loop, tok) := addTimer A s.loop s.now (intervalArg o.interval) (if o.oneshot then 1 else 0) j
-    ({ s with loop := loop }.setObj j { o with enabled := true, token := some tok }, true)
-
-def wDestroy (A : Algs) (s : WState) (j : Nat) : WState × Bool :=
-  if !(s.obj j).alive then (s, false) else
-  let s1 := (wDisable A s j).1
-  (s1.setObj j { s1.obj j with alive := false }, true)
-
-def wNew (s : WState) : WState := { s with objs := s.objs.push {} }
-
-/-- `TimerEventImpl::onEvent` head: a one-shot marks itself disabled and resets its token -/
-def wOnEvent (s : WState) (j : Nat) : WState :=
-  let o := s.obj j
-  if o.oneshot then s.setObj j { o with enabled := false, token := none } else s
 
 /-- move a record to the front of the vector (the acceptor follows whichever of several records with
 the front's deadline the real heap served; on a sorted vector this keeps the order sorted) -/
